@@ -30,6 +30,17 @@ Recognised idioms (anything else in the mapping functions is an ExtractionError)
 
 Dynamic probes (the module is imported): values of the PROP_* constants, `list_properties()` of every class,
 what each decoder returns for an absent property, whether each setter accepts None.
+
+Behavioural cross-check / stand-in (`probe_kind`): the same to- and from-tables are *observed* - a sample value per
+setter (chosen by the setter's annotation, must survive to -> from), the graph property it makes appear, the encoder
+that yields exactly the written text, the decoder by what comes back, the falsy-but-valid values of the same type, the
+comma-joined pair - and compared with the AST reading on every run.  When a mapping function does not have the
+recognised shape (renamed locals, reshaped conditions, a helper), the observed table is used and the fact is noted in
+the evidence (`ast_fallback`); it is an extraction error only when the *behaviour* is not expressible in the table
+language (e.g. a row written for True but not for False).
+
+Element routes (`element_routes`): every python `property` of every element class of `fim.user` by introspection,
+classified by probes on a recording stub (no source text matched).
 """
 import ast
 import inspect
@@ -657,6 +668,332 @@ structure ElemClass where
     return body
 
 
+# --------------------------------------------------------------------------
+# behavioural probe of the mapping functions (cross-check of the AST reading, and its stand-in when a harmless
+# rewrite - renamed locals, reshaped conditions, a helper - makes the AST patterns miss)
+#
+# For every setter name of a sliver class a sample value is found that the setter accepts and that survives
+# to-function -> from-function; the to-row is what appears in the graph dictionary when only that property is set
+# (or that pair of properties, for the comma-joined row), the encoder is identified by comparing the written text with
+# what each encoder of the closed set yields, the decoder by what the from-function makes of that text.  A row that is
+# written for the sample but not for the falsy-but-valid values of the same type (False, '', (), empty objects) is not
+# expressible in the table language (`x is not None`) and is reported as an extraction error naming the value.
+
+
+def _candidates():
+    """[(value, [falsy values of the same type])] tried in order for every setter"""
+    import fim.slivers.capacities_labels as cl
+    import fim.slivers.delegations as dl
+    import fim.slivers.tags as tg
+    import fim.slivers.json_data as jd
+    import fim.slivers.gateway as gw
+    import fim.slivers.path_info as pi
+    import fim.slivers.maintenance_mode as mm
+    import fim.slivers.network_service as ns
+    import fim.slivers.network_node as nn
+    import fim.slivers.interface_info as ii
+    import fim.slivers.attached_components as ac
+    import fim.slivers.network_link as nl
+    import ipaddress
+    out = [("probe-text", [""]), ("192.168.7.7", []), (True, [False]), (("pa", "pb"), [()])]
+    for e in (nn.NodeType, ac.ComponentType, ns.ServiceType, ii.InterfaceType, nl.LinkType, ns.NSLayer, ns.MirrorDirection):
+        out.append((list(e)[1], []))
+    out += [(cl.Capacities(core=2), []), (cl.Labels(vlan="100"), []), (cl.CapacityHints(instance_type="probe"), []),
+            (cl.ReservationInfo(reservation_id="r"), []), (cl.StructuralInfo(sub_graph_id="g"), []),
+            (cl.Location(postal="p"), []), (cl.Flags(ptp=True), [cl.Flags()]), (tg.Tags("probe"), [tg.Tags()]),
+            (jd.MeasurementData('{"a": 1}'), [jd.MeasurementData("0")]), (jd.UserData('{"a": 1}'), [jd.UserData('""')]),
+            (jd.LayoutData('{"a": 1}'), [jd.LayoutData("[]")]),
+            (gw.Gateway(cl.Labels(ipv4="192.168.1.1", ipv4_subnet="192.168.1.0/24")), [])]
+    p = pi.Path()
+    p.set_symmetric(["a", "b"])
+    e = pi.ERO(pi.PathRepresentationType.Path)
+    e.set(payload=p)
+    pinfo = pi.PathInfo(pi.PathRepresentationType.Path)
+    pinfo.set(payload=p)
+    out += [(e, []), (pinfo, [])]
+    mi = mm.MaintenanceInfo()
+    mi.add("probe", minfo=mm.MaintenanceEntry(state=mm.MaintenanceState.Maint))
+    mi.finalize()
+    out.append((mi, []))
+    for at, det in ((dl.DelegationType.CAPACITY, cl.Capacities(core=1)), (dl.DelegationType.LABEL, cl.Labels(vlan="1"))):
+        ds = dl.Delegations(atype=at)
+        d = dl.Delegation(atype=at, aformat=dl.DelegationFormat.SinglePool, delegation_id="probe-del")
+        d.set_details(det)
+        ds.add_delegations(d)
+        out.append((ds, []))
+    out.append((ipaddress.ip_address("192.168.7.7"), []))
+    return out
+
+
+def _same(a, b):
+    """two property values of a sliver denote the same thing (objects without __eq__ are compared by their text)"""
+    if type(a) is not type(b):
+        return False
+    try:
+        if a == b:
+            return True
+    except Exception:
+        pass
+    for m in ("to_json", ):
+        if hasattr(a, m):
+            try:
+                if getattr(a, "type", None) != getattr(b, "type", None):
+                    return False
+                return getattr(a, m)() == getattr(b, m)()
+            except Exception:
+                return False
+    if hasattr(a, "json"):
+        return a.json == b.json
+    return False
+
+
+def _enc_of(v, w, pair=None):
+    """which encoder of the closed set yields text `w` for value `v`"""
+    import json as _json
+    if pair is not None:
+        a, b = pair
+        return "commaJoin" if isinstance(a, str) and w == a + "," + str(b) else None
+    if isinstance(v, str) and w == v:
+        return "ident"
+    if hasattr(v, "json") and not hasattr(v, "to_json") and w == v.json:
+        return "jsonData"
+    if hasattr(v, "to_json"):
+        try:
+            if w == v.to_json():
+                return "toJson"
+        except Exception:
+            pass
+    if isinstance(v, (bool, tuple, list)) or v is None:
+        try:
+            if w == _json.dumps(v):
+                return "jsonDumps"
+        except Exception:
+            pass
+    if w == str(v):
+        return "str"
+    return None
+
+
+def probe_kind(kind, tofn, fromfn, pycls, settable, type_enum, enums):
+    """-> (to-rows [(keys, gprop, enc, always)], from-rows [(key, gprop, dec, arg, absent)]) by behaviour alone"""
+    import fim.graph.abc_property_graph as apg
+    import fim.slivers.json_data as jd
+    import enum as _enum
+    G = apg.ABCPropertyGraph
+    to = getattr(G, tofn)
+    raw_back = getattr(G, fromfn)
+    cands = _candidates()
+    base = to(pycls())
+    # the from-functions insist on a name: every probe dictionary carries one unless it says otherwise
+    named = to(_with(pycls, {"name": "probe-nm"}))
+    name_g = [g for g, w in named.items() if base.get(g) != w]
+    if len(name_g) != 1:
+        raise ExtractionError("%s: setting the name writes %s" % (tofn, name_g))
+    name_g = name_g[0]
+
+    def back(d):
+        d2 = dict(d)
+        d2.setdefault(name_g, "probe-nm")
+        return raw_back(d2)
+
+    none_sliver = back({})
+    sample, falsy = {}, {}
+
+    def with_props(kw):
+        return _with(pycls, kw)
+
+    # 1. a sample value per setter name: accepted by the setter, written as text, and read back as the same value
+    alone_silent = []
+    for k in settable:
+        if k in STRUCTURAL_KEYS:
+            continue
+        found = False
+        silent = False
+        ann = _annotation(pycls, k)
+        for v, fz in cands:
+            if k == "type" and not isinstance(v, type_enum):
+                continue
+            if ann is not None and not isinstance(v, ann):
+                continue
+            try:
+                s = with_props({k: v})
+                d = to(s)
+            except Exception:
+                continue
+            new = {g: w for g, w in d.items() if base.get(g) != w}
+            if not new:
+                silent = silent or isinstance(v, str)
+                continue
+            if len(new) != 1 or not all(isinstance(w, str) for w in new.values()):
+                continue
+            try:
+                r = back(dict(d)).get_property(k)
+            except Exception:
+                continue
+            if _same(r, s.get_property(k)):
+                sample[k] = (v, list(new)[0], list(new.values())[0])
+                falsy[k] = fz
+                found = True
+                break
+        if not found:
+            if silent:
+                alone_silent.append(k)
+            else:
+                raise ExtractionError("%s: no sample value of the closed set survives %s -> %s for property `%s`" % (
+                    pycls.__name__, tofn, fromfn, k))
+    # 2. properties that are written only together (the comma-joined row)
+    pairs = []
+    rest = list(alone_silent)
+    while rest:
+        a = rest.pop(0)
+        mate = None
+        for b in rest:
+            for x, y in ((a, b), (b, a)):
+                d = to(with_props({x: "probe-x", y: "probe-y"}))
+                new = {g: w for g, w in d.items() if base.get(g) != w}
+                if len(new) == 1 and _enc_of(None, list(new.values())[0], pair=("probe-x", "probe-y")) == "commaJoin":
+                    mate = (x, y, list(new)[0])
+                    break
+            if mate:
+                break
+        if mate is None:
+            raise ExtractionError("%s: property `%s` is not written by %s, alone or with another one" % (pycls.__name__, a, tofn))
+        rest.remove(mate[1] if mate[0] == a else mate[0])
+        pairs.append(mate)
+    # 3. to-rows
+    trows = []
+    for k, (v, g, w) in sample.items():
+        enc = _enc_of(with_props({k: v}).get_property(k), w)
+        if enc is None:
+            raise ExtractionError("%s: the text %r written to %s for `%s` is not what any encoder of the closed set yields" % (tofn, w, g, k))
+        # written whenever the value is not None?  (falsy-but-valid values of the same type)
+        for fv in falsy[k]:
+            try:
+                fs = with_props({k: fv})
+            except Exception:
+                continue        # the setter's own validation rejects it (not a valid value of this property)
+            try:
+                d = to(fs)
+            except Exception as e:
+                raise ExtractionError("%s raises for the falsy value %r of `%s`: %s" % (tofn, fv, k, type(e).__name__))
+            if g not in d or _enc_of(with_props({k: fv}).get_property(k), d[g]) != enc:
+                raise ExtractionError("%s does not write %s for the falsy-but-valid value %r of `%s` (it does for %r): a row "
+                                      "conditional on truthiness rather than `is not None` loses that value" % (tofn, g, fv, k, v))
+        # the always-written row: there for a fresh sliver and for None
+        always = False
+        if g in base:
+            try:
+                dn = to(with_props({k: None}))
+                always = g in dn
+            except Exception:
+                always = False
+            if not always:
+                raise ExtractionError("%s writes %s for a fresh sliver but not when `%s` is None" % (tofn, g, k))
+        elif to(with_props({k: None}) if _accepts_none(pycls, k) else pycls()).get(g) is not None:
+            raise ExtractionError("%s writes %s although `%s` is None" % (tofn, g, k))
+        trows.append(([k], g, enc, always))
+    for x, y, g in pairs:
+        trows.append(([x, y], g, "commaJoin", False))
+    extra = set(base) - {g for _, g, _, _ in trows}
+    if extra:
+        raise ExtractionError("%s writes %s for a fresh sliver; no setter accounts for it" % (tofn, sorted(extra)))
+    # 4. from-rows
+    frows = []
+    for k, (v, g, w) in sample.items():
+        r = back({g: w}).get_property(k)
+        ab = none_sliver.get_property(k) if g != name_g else None
+        absent = "none" if ab is None else ("boolFalse" if ab is False else "object")
+        if isinstance(r, str) and r == w:
+            dec, arg = "ident", ""
+        elif isinstance(r, _enum.Enum):
+            if k == "type":
+                dec, arg = "typeFromStr", type(r).__name__
+            else:
+                dec, arg = "fromString", type(r).__name__
+        elif isinstance(r, jd.JSONData):
+            dec, arg = "jsonDataCtor", type(r).__name__
+        elif isinstance(r, (bool, tuple, list)):
+            dec, arg = "jsonLoads", ""
+        elif hasattr(r, "to_json"):
+            dec, arg = "fromJson", type(r).__name__
+            if arg == "Delegations":
+                arg += "." + r.type.name
+        elif str(r) == w:
+            dec, arg = "ident", ""          # the setter rebuilds the object from its text (ip address)
+        else:
+            raise ExtractionError("%s: what `%s` reads from %s=%r is not the work of a decoder of the closed set" % (fromfn, k, g, w))
+        frows.append((k, g, dec, arg, absent))
+    for x, y, g in pairs:
+        d = {g: "a,b,c"}
+        try:
+            s = back(dict(d))
+            parts = (s.get_property(x), s.get_property(y))
+            dec = "commaRSplit" if parts == ("a,b", "c") else None
+        except ValueError:
+            dec = "commaSplit"
+        if dec is None:
+            raise ExtractionError("%s: %s is not split at its last comma" % (fromfn, g))
+        for i, k in enumerate((x, y)):
+            ab = none_sliver.get_property(k)
+            frows.append((k, g, dec, str(i), "none" if ab is None else "object"))
+    return trows, frows
+
+
+STRUCTURAL_KEYS = {"network_service_info"}
+
+
+def _annotation(pycls, k):
+    """the declared parameter type of set_<k>, when it is a plain class (or a typing tuple)"""
+    import typing
+    try:
+        ps = list(inspect.signature(getattr(pycls, "set_" + k)).parameters.values())
+    except (TypeError, ValueError):
+        return None
+    if len(ps) != 2 or ps[1].annotation is inspect.Parameter.empty:
+        return None
+    a = ps[1].annotation
+    if typing.get_origin(a) in (tuple, typing.Tuple):
+        return tuple
+    return a if inspect.isclass(a) else None
+
+
+def _with(pycls, kw):
+    s = pycls()
+    for k, v in kw.items():
+        getattr(s, "set_" + k)(v)
+    return s
+
+
+def _accepts_none(pycls, k):
+    try:
+        getattr(pycls(), "set_" + k)(None)
+        return True
+    except Exception:
+        return False
+
+
+def compare_rows(kind, ast_t, ast_f, pr_t, pr_f, sample_is_str):
+    """the AST reading and the behaviour must tell the same table (`ident` and `str` coincide on strings)"""
+    def norm_t(rows):
+        out = {}
+        for keys, g, enc, always in rows:
+            e = "ident" if enc == "str" and all(sample_is_str.get(k, False) for k in keys) else enc
+            out[g] = (tuple(keys), e, bool(always))
+        return out
+    a, b = norm_t(ast_t), norm_t(pr_t)
+    if a != b:
+        diff = sorted(g for g in set(a) | set(b) if a.get(g) != b.get(g))
+        raise ExtractionError("%s: the to-table read from the AST and the one observed by probing differ at %s: %s vs %s" % (
+            kind, diff, [a.get(g) for g in diff], [b.get(g) for g in diff]))
+    fa = {k: (g, dec, arg, absent) for k, g, dec, arg, absent in ast_f}
+    fb = {k: (g, dec, arg, absent) for k, g, dec, arg, absent in pr_f}
+    if fa != fb:
+        diff = sorted(k for k in set(fa) | set(fb) if fa.get(k) != fb.get(k))
+        raise ExtractionError("%s: the from-table read from the AST and the one observed by probing differ at %s: %s vs %s" % (
+            kind, diff, [fa.get(k) for k in diff], [fb.get(k) for k in diff]))
+
+
+
 def _lean_row(fields):
     return "{ " + ", ".join("%s := %s" % kv for kv in fields) + " }"
 
@@ -701,12 +1038,18 @@ def generate():
         raise ExtractionError("map_sliver_property_to_graph changed")
     no_unset = list(K.NO_UNSET_PROPERTIES)
 
-    base_is_base, base_to = to_rows(find_func(cls, BASE_TO), consts)
-    if base_is_base:
-        raise ExtractionError("base to-function calls itself")
-    base_from = from_base(find_func(cls, BASE_FROM), consts)
+    # the AST reading of the mapping functions; where a function does not have the recognised shape the behavioural
+    # probe (`probe_kind`) stands in for it, where it has, the probe cross-checks it
+    base_err = None
+    try:
+        base_is_base, base_to = to_rows(find_func(cls, BASE_TO), consts)
+        if base_is_base:
+            raise ExtractionError("base to-function calls itself")
+        base_from = from_base(find_func(cls, BASE_FROM), consts)
+    except ExtractionError as e:
+        base_err = e
 
-    report = {"kinds": {}, "span": span_hash(src, cls)}
+    report = {"kinds": {}, "span": span_hash(src, cls), "ast_fallback": {}}
     body = """inductive Enc | ident | str | toJson | jsonDumps | jsonData | commaJoin
   deriving DecidableEq, Repr, Inhabited
 inductive Dec | ident | typeFromStr | fromString | fromJson | jsonLoads | jsonDataCtor | commaSplit | commaRSplit
@@ -757,12 +1100,6 @@ structure KindTable where
     tables = []
     for kind, tofn, fromfn, clsname in KINDS:
         pycls = classes[clsname]
-        inh, rows = to_rows(find_func(cls, tofn), consts)
-        if not inh:
-            raise ExtractionError("%s does not start from the base dictionary" % tofn)
-        trows = base_to + rows
-        frows, children = from_kind(find_func(cls, fromfn), consts, clsname)
-        frows = base_from + frows
         settable = list(pycls.list_properties())
         tenum = type_enums[clsname]
         for m in tenum:
@@ -783,46 +1120,93 @@ structure KindTable where
                 none_ok[k] = True
             except Exception:
                 none_ok[k] = False
+        key2attr = {k: a for a, k in attr2key.items()}
+        # (a) the AST reading
+        ast_err = base_err
+        ast_t = ast_f = None
+        children = None
+        if ast_err is None:
+            try:
+                inh, rows = to_rows(find_func(cls, tofn), consts)
+                if not inh:
+                    raise ExtractionError("%s does not start from the base dictionary" % tofn)
+                ast_t = []
+                for attrs, g, enc, always in base_to + rows:
+                    for a in attrs:
+                        if a not in attr2key:
+                            raise ExtractionError("%s: to-row reads attribute %s which no setter of %s assigns" % (tofn, a, clsname))
+                    ast_t.append(([attr2key[a] for a in attrs], g, enc, always))
+                frows, children = from_kind(find_func(cls, fromfn), consts, clsname)
+                ast_f = []
+                for key, g, dec, arg, dflt in base_from + frows:
+                    if key not in norm_of:
+                        raise ExtractionError("%s: set_properties(%s=...) but %s has no such setter" % (fromfn, key, clsname))
+                    # what does the decoder yield for an absent property?
+                    if dec == "typeFromStr":
+                        arg = tenum.__name__
+                    if dec in ("ident", "commaSplit", "commaRSplit"):
+                        absent = "none"
+                    elif dec in ("jsonLoads", "jsonDataCtor"):
+                        absent = "none" if dflt is None else "boolFalse"
+                    elif dec == "typeFromStr":
+                        absent = "none" if pycls.type_from_str(None) is None else "object"
+                    elif dec == "fromString":
+                        if arg not in enums:
+                            raise ExtractionError("unknown enum %s" % arg)
+                        absent = "none" if enums[arg].from_string(None) is None else "object"
+                    elif dec == "fromJson":
+                        owner = arg.split(".")[0]
+                        c = getattr(apg, owner, None)
+                        if c is None:
+                            raise ExtractionError("unknown codec class %s" % owner)
+                        if "." in arg:
+                            v = c.from_json(json_str=None, atype=getattr(apg.DelegationType, arg.split(".")[1]))
+                        else:
+                            v = c.from_json(None)
+                        absent = "none" if v is None else "object"
+                    else:
+                        raise ExtractionError("decoder %s" % dec)
+                    ast_f.append((key, g, dec, arg, absent))
+            except ExtractionError as e:
+                ast_err = e
+        # (b) the behavioural probe
+        pr_t, pr_f = probe_kind(kind, tofn, fromfn, pycls, settable, tenum, enums)
+        pr_children = False
+        if kind == "interface":
+            try:
+                ps = getattr(apg.ABCPropertyGraph, fromfn)({consts["PROP_NAME"]: "probe-p", "interfaces": [{consts["PROP_NAME"]: "probe-c"}]})
+                ii_ = getattr(ps, "interface_info", None)
+                pr_children = ii_ is not None and list(ii_.interfaces) == ["probe-c"]
+            except Exception:
+                pr_children = False
+        if ast_err is None:
+            str_sample = {}
+            for keys, g, enc, always in pr_t:
+                for k in keys:
+                    str_sample[k] = enc in ("ident", "commaJoin")
+            compare_rows(kind, ast_t, ast_f, pr_t, pr_f, str_sample)
+            if bool(children) != pr_children:
+                raise ExtractionError("%s: the AST says child interfaces are %srebuilt from the 'interfaces' key, probing says otherwise" % (
+                    fromfn, "" if children else "not "))
+            use_t, use_f = ast_t, ast_f
+        else:
+            # a rewrite the patterns do not know: the observed table stands in (noted in the evidence, not an alarm)
+            report["ast_fallback"][kind] = str(ast_err)[:300]
+            order = {k: i for i, k in enumerate(settable)}
+            use_t = sorted(pr_t, key=lambda r: order.get(r[0][0], 99))
+            use_f = sorted(pr_f, key=lambda r: order.get(r[0], 99))
+            children = pr_children
         lt = []
-        for attrs, g, enc, always in trows:
-            for a in attrs:
-                if a not in attr2key:
-                    raise ExtractionError("%s: to-row reads attribute %s which no setter of %s assigns" % (tofn, a, clsname))
-            lt.append(_lean_row([("keys", lean_list([lean_str(attr2key[a]) for a in attrs])),
-                                 ("attrs", lean_list([lean_str(a) for a in attrs])), ("gprop", lean_str(g)),
+        for keys, g, enc, always in use_t:
+            lt.append(_lean_row([("keys", lean_list([lean_str(k) for k in keys])),
+                                 ("attrs", lean_list([lean_str(key2attr[k]) for k in keys])), ("gprop", lean_str(g)),
                                  ("enc", "Enc." + enc), ("always", "true" if always else "false")]))
         lf = []
-        for key, g, dec, arg, dflt in frows:
-            if key not in norm_of:
-                raise ExtractionError("%s: set_properties(%s=...) but %s has no such setter" % (fromfn, key, clsname))
-            # what does the decoder yield for an absent property?
-            if dec == "typeFromStr":
-                arg = tenum.__name__
-            if dec in ("ident", "commaSplit", "commaRSplit"):
-                absent = "none"
-            elif dec in ("jsonLoads", "jsonDataCtor"):
-                absent = "none" if dflt is None else "boolFalse"
-            elif dec == "typeFromStr":
-                absent = "none" if pycls.type_from_str(None) is None else "object"
-            elif dec == "fromString":
-                if arg not in enums:
-                    raise ExtractionError("unknown enum %s" % arg)
-                absent = "none" if enums[arg].from_string(None) is None else "object"
-            elif dec == "fromJson":
-                owner = arg.split(".")[0]
-                c = getattr(apg, owner, None)
-                if c is None:
-                    raise ExtractionError("unknown codec class %s" % owner)
-                if "." in arg:
-                    v = c.from_json(json_str=None, atype=getattr(apg.DelegationType, arg.split(".")[1]))
-                else:
-                    v = c.from_json(None)
-                absent = "none" if v is None else "object"
-            else:
-                raise ExtractionError("decoder %s" % dec)
+        for key, g, dec, arg, absent in use_f:
             lf.append(_lean_row([("key", lean_str(key)), ("gprop", lean_str(g)), ("dec", "Dec." + dec), ("arg", lean_str(arg)),
                                  ("absent", "Absent." + absent), ("norm", "Norm." + norm_of[key]),
                                  ("noneOk", "true" if none_ok[key] else "false")]))
+        trows, frows = use_t, use_f
         body += "def %sTable : KindTable :=\n  { kind := %s, cls := %s,\n    toRows := [\n      %s],\n    fromRows := [\n      %s],\n    settable := %s,\n    recursiveChildren := %s,\n    typeEnum := %s, typeMembers := %s }\n\n" % (
             kind, lean_str(kind), lean_str(clsname), ",\n      ".join(lt), ",\n      ".join(lf),
             lean_list([lean_str(s) for s in settable]), "true" if children else "false",
